@@ -40,6 +40,7 @@ def _work(args):
         if custom is not None:
             r = custom(pid, hname, fn, cfg, seed=seed, **opts)
         else:
+            opts.setdefault("budget_s", 1500 if tier == "quick" else 7200)
             r = harness.run_obligation(pid, hname, fn, cfg, seed=seed, **opts)
     except Exception as e:  # framework bug: fail closed
         import traceback
